@@ -11,6 +11,8 @@ def loop_ordinal(fi, node):
 
 
 def find_spec(eng, fr, node):
+    if getattr(node, 'pyvc_spec', None) is not None:
+        return node.pyvc_spec     # synthesized loop (comprehension executed as a loop) carrying its own invariant
     fi = fr.fi
     if fi is None:
         return None, None, None
@@ -364,3 +366,79 @@ def symbolic_while(eng, s, fr):
         _body_frame(eng, mods, head_heap, mark, tag, s.lineno)
         raise PathEnd()
     eng.exec_block(s.orelse, fr)
+
+
+COMP_NODES = (ast.ListComp, ast.SetComp, ast.DictComp, ast.GeneratorExp)
+
+
+def comp_spec(eng, fr, node):
+    """sidecar invariant `comp<K>_inv` of a comprehension (K = ordinal among the comprehensions of the function, source
+    order) -> (spec, label, contract) or None"""
+    fi = fr.fi
+    if fi is None:
+        return None
+    con = eng.reg.contracts.get(fi.qualname)
+    if con is None or not con.comps:
+        con = eng.reg.loop_contracts.get(fi.qualname)
+    if con is None or not con.comps:
+        return None
+    comps = [n for n in ast.walk(fi.node) if isinstance(n, COMP_NODES)]
+    comps.sort(key=lambda n: (n.lineno, n.col_offset))
+    if node not in comps:
+        return None
+    k = comps.index(node)
+    if k not in con.comps or 'inv' not in con.comps[k]:
+        return None
+    return con.comps[k], f'comp{k}', con
+
+
+def comp_as_loop(eng, n, fr, ps):
+    """A set / list comprehension whose guard or element calls functions with effects cannot be summarised by a
+    quantifier.  With a sidecar invariant it is executed as the loop it abbreviates:
+        comp_acc = set() | []
+        for <target> in comp_items: if <ifs>: comp_acc.add|append(<elt>)
+    (same initiation / preservation / exit obligations as any loop; the invariant names the accumulator `comp_acc`,
+    the iterated collection `comp_items` and the ghosts k / seen / loop_old)."""
+    if eng.mode != EXEC:
+        raise Unsupported('comprehension with invariant outside exec mode')
+    if len(n.generators) != 1 or n.generators[0].is_async:
+        raise Unsupported('comprehension with invariant: exactly one generator is supported')
+    g = n.generators[0]
+    coll = eng.ev(g.iter, fr)
+    if eng.iter_const(coll) is not None:
+        return None     # known length: the ordinary explicit evaluation forks as python would
+    spec, label, con = ps
+    decl = con.attrs.get(f'{label}_type')
+    if decl is not None:
+        # element type declared in the sidecar (comp<K>_type = 'Set[str]') when the element is a computed value
+        ety = eng.ts.ann_to_type(ast.parse(decl, mode='eval').body, fr.module, fr.defcls)
+    elif not (isinstance(n.elt, ast.Name) and isinstance(g.target, ast.Name) and n.elt.id == g.target.id):
+        raise Unsupported(f'comprehension with invariant: declare the element type ({label}_type = \'...\') when the '
+                          f'element is not the loop variable itself')
+    elif isinstance(coll, ValuesView) and coll.what == 'values':
+        ety = coll.d.vty
+    elif isinstance(coll, ValuesView) and coll.what == 'items':
+        raise Unsupported('comprehension with invariant over dict.items(): declare the element type')
+    else:
+        ety = eng.elem_type(coll)
+    is_set = isinstance(n, ast.SetComp)
+    sub = Frame(fr.fi, fr.module, dict(fr.vars), fr.selfv, fr.defcls)
+    for name in ('comp_acc', 'comp_items'):
+        if name in sub.vars:
+            raise Unsupported(f'comprehension with invariant: the function already has a local named {name}')
+    sub.vars['comp_acc'] = eng.new_set([], ety) if is_set else eng.new_list([], ety)
+    sub.vars['comp_items'] = coll
+    add = ast.Expr(ast.Call(func=ast.Attribute(value=ast.Name(id='comp_acc', ctx=ast.Load()),
+                                               attr='add' if is_set else 'append', ctx=ast.Load()),
+                            args=[n.elt], keywords=[]))
+    if g.ifs:
+        test = g.ifs[0] if len(g.ifs) == 1 else ast.BoolOp(op=ast.And(), values=list(g.ifs))
+        body = [ast.If(test=test, body=[add], orelse=[])]
+    else:
+        body = [add]
+    loop = ast.For(target=g.target, iter=ast.Name(id='comp_items', ctx=ast.Load()), body=body, orelse=[])
+    ast.copy_location(loop, n)
+    ast.fix_missing_locations(loop)
+    loop.pyvc_spec = ps
+    symbolic_for(eng, loop, sub, coll)
+    return sub.vars['comp_acc']
